@@ -71,6 +71,13 @@ func g5Mentions(v ssa.Value, env g5Env, seen map[ssa.Value]bool, depth int) bool
 		_, bound := env[p]
 		return bound
 	}
+	if al, ok := v.(*ssa.Alloc); ok {
+		// the slot a parameter was spilled to (ip_h4r3.go): stands for the parameter
+		if p := h4rSpilledParam(al); p != nil {
+			_, bound := env[p]
+			return bound
+		}
+	}
 	if in, ok := v.(ssa.Instruction); ok {
 		for _, op := range in.Operands(nil) {
 			if *op != nil && g5Mentions(*op, env, seen, depth+1) {
@@ -102,6 +109,13 @@ func g5PathN(v ssa.Value, env g5Env, cur *ssa.Function, depth int) (string, bool
 	switch v := v.(type) {
 	case *ssa.Parameter:
 		return sub(env[v])
+	case *ssa.Alloc:
+		// never re-assigned copy of a by-value parameter: the address of (a copy of) the argument
+		if p := h4rSpilledParam(v); p != nil {
+			if x, ok := sub(env[p]); ok {
+				return "&" + x, true
+			}
+		}
 	case *ssa.FieldAddr:
 		if x, ok := sub(v.X); ok {
 			return "&" + derefPath(x) + "." + fieldName(v.X.Type(), v.Field), true
